@@ -79,6 +79,7 @@ class TreeSet:
     def plant_junk(self, rng, ents, configs=None):
         """Plants files / folders that conform to NO template (checked with R8). Returns list of planted paths."""
         planted = []
+        self.planted_desync = 0
         for c in (configs or self.configs):
             pm = self.pms[c]
             cands = []
@@ -158,5 +159,6 @@ class TreeSet:
                 else:
                     os.makedirs(stray, exist_ok=True)
                 planted.append(stray)
+                self.planted_desync += 1
                 nd += 1
         return planted
